@@ -409,17 +409,17 @@ class Ctx:
         cmd += q.native_flags
         if getattr(q, "native_lib_exclude", None) is not None:
             srcs = srcs + self.native_lib(tuple(q.native_lib_exclude))
-        cmd += srcs + [os.path.join(STUBS, "nd_native.c"), "-o", exe, "-lm"]
+        cmd += srcs + [os.path.join(STUBS, "nd_native.c"), "-o", exe, "-lm", "-Wl,--wrap=malloc,--wrap=calloc,--wrap=realloc,--wrap=free"]
         if q.native_cxx:
             for ci, cs in enumerate(q.native_c_sources):
                 co = os.path.join(q.dir, "csrc%d.o" % ci)
                 sh(["gcc", "-c", "-g", "-w", "-DNDEBUG"] + BASE_INC + [cs, "-o", co] + (["-fsanitize=address"] if asan else []))
-                cmd.insert(-3, co)
+                cmd.insert(-4, co)
             # nd_native.c is C; compile separately
             obj = os.path.join(q.dir, "nd_native.o")
             rc, out, *_ = sh(["gcc", "-c", "-g", "-w", os.path.join(STUBS, "nd_native.c"), "-o", obj] + (["-fsanitize=address"] if asan else []))
             cmd = [c for c in cmd if c != os.path.join(STUBS, "nd_native.c")]
-            cmd.insert(-3, obj)
+            cmd.insert(-4, obj)
         rc, out, *_ = sh(cmd, timeout=600)
         if rc != 0:
             return None, out[-3000:]
@@ -453,7 +453,8 @@ class Ctx:
             verdict = "assertion: " + nmsg
             # an assertion-type counterexample must reproduce as the SAME assertion; a different
             # native failure on the same input is reported under its own cbmc property, not this one
-            if ".assertion." in prop and nmsg.strip() not in descr:
+            same = nmsg.strip() in descr or (nmsg.startswith("C03 ") and "C03 " in descr)
+            if ".assertion." in prop and not same:
                 verdict = None
                 out = "native run fails a different assertion (%s)\n" % nmsg + out
         elif "AddressSanitizer" in out:
